@@ -60,11 +60,14 @@ const Q_CONDITION: i64 = 17;
 const Q_CONDITION_MODEL: i64 = 18;
 /// export through the serialisable mirror types (a public walk over the diagram like any other query)
 const Q_SERIALIZE: i64 = 19;
-const NQ: usize = 20;
+/// the builder's statistics entry points: public calls that walk the store; their own answers depend on what
+/// else the builder holds and are not compared, what they leave behind is
+const Q_STATS: i64 = 20;
+const NQ: usize = 21;
 const QNAMES: [&str; NQ] = [
     "wmc<Real>", "wmc<FF tiny>", "wmc<FF small>", "wmc<FF 64>", "evaluate", "wmc<Rational>", "wmc<Complex>", "wmc<ExpectedUtility>",
     "wmc<Polynomial>", "count_nodes", "semantic_hash", "cached_semantic_hash", "bdd_fold", "marginal_map", "meu", "bb", "smooth",
-    "condition", "condition_model", "serialize",
+    "condition", "condition_model", "serialize", "statistics",
 ];
 
 type Ans = Vec<u64>;
@@ -261,6 +264,10 @@ fn bdd_query(b: &'static RobddBuilder<'static, AllIteTable<BPtr>>, p: BPtr, q: i
         Q_SERIALIZE => {
             let ser = rsdd::serialize::BDDSerializer::from_bdd(p);
             (vec![crate::rng::str_hash(&serde_json::to_string(&ser).unwrap_or_default())], None)
+        }
+        Q_STATS => {
+            let _ = (b.stats(), b.num_recursive_calls());
+            (vec![], None)
         }
         _ => (vec![], None),
     }
@@ -552,6 +559,10 @@ fn sdd_query(b: &'static CompressionSddBuilder<'static>, p: SPtr, q: i64, a1: i6
             let ser = rsdd::serialize::SDDSerializer::from_sdd(p);
             (vec![crate::rng::str_hash(&serde_json::to_string(&ser).unwrap_or_default())], None)
         }
+        Q_STATS => {
+            let _ = (b.stats(), b.node_iter().len());
+            (vec![], None)
+        }
         _ => (vec![], None),
     }
 }
@@ -610,7 +621,7 @@ fn run_sdd(plan: &Plan, ctx: &mut Ctx) -> R {
             }
             Q => {
                 let mut q = op.a[0].rem_euclid(NQ as i64);
-                if q > Q_CACHED_SEMHASH && q != Q_CONDITION && q != Q_SERIALIZE {
+                if q > Q_CACHED_SEMHASH && q != Q_CONDITION && q != Q_SERIALIZE && q != Q_STATS {
                     q = q % (Q_CACHED_SEMHASH + 1);
                 }
                 let h = resolve(op.a[1], np);
@@ -671,6 +682,7 @@ fn run_topdown(plan: &Plan, ctx: &mut Ctx) -> R {
     let labels: Vec<VarLabel> = perm.iter().map(|v| VarLabel::new(*v as u64)).collect();
     let order = VarOrder::new(&labels);
     let b: &'static StandardDecisionNNFBuilder<'static> = Box::leak(Box::new(StandardDecisionNNFBuilder::new(order.clone())));
+    let td_cached_map = create_semantic_hash_map::<{ primes::U64_LARGEST }>(n);
     let w = weights(plan.get("wseed") as u64, n);
     let mk_cnf = |g: &Vec<Vec<(usize, bool)>>| -> Cnf {
         let mut cl: Vec<Vec<Literal>> = g.iter().map(|c| c.iter().map(|(v, p)| Literal::new(VarLabel::new(*v as u64), *p)).collect()).collect();
@@ -723,7 +735,7 @@ fn run_topdown(plan: &Plan, ctx: &mut Ctx) -> R {
             S_CHILD => {}
             Q => {
                 let mut q = op.a[0].rem_euclid(NQ as i64);
-                if q > Q_SEMHASH && q != Q_CONDITION && q != Q_SERIALIZE {
+                if q > Q_SEMHASH && q != Q_CONDITION && q != Q_SERIALIZE && q != Q_STATS && q != Q_CACHED_SEMHASH {
                     q = q % (Q_SEMHASH + 1);
                 }
                 let h = resolve(op.a[1], np);
@@ -736,6 +748,13 @@ fn run_topdown(plan: &Plan, ctx: &mut Ctx) -> R {
                     if q == Q_SERIALIZE {
                         let ser = rsdd::serialize::BDDSerializer::from_bdd(p);
                         return (vec![crate::rng::str_hash(&serde_json::to_string(&ser).unwrap_or_default())], None);
+                    }
+                    if q == Q_STATS {
+                        let _ = (bb.num_logically_redundant(), bb.stats());
+                        return (vec![], None);
+                    }
+                    if q == Q_CACHED_SEMHASH {
+                        return (vec![p.cached_semantic_hash(bb.order(), &td_cached_map).value() as u64], None);
                     }
                     let v = a1.unsigned_abs() as usize % n;
                     let r = bb.condition(p, VarLabel::new(v as u64), a2 & 1 == 1);
